@@ -846,6 +846,33 @@ func (e *Env) call(x ECall) EVal {
 			return EVal{T: c}
 		}
 		return EVal{T: IntLit(0)}
+	case "at_return":
+		// at_return("designator", e): e evaluated on the heap as it was when the most recent
+		// call to designator returned (locals keep their current values)
+		name := ""
+		if sv, ok := x.Args[0].(EStr); ok {
+			name = sv.V
+		} else {
+			name = exprName(x.Args[0])
+		}
+		if len(x.Args) < 2 {
+			efail("at_return needs a designator and an expression")
+		}
+		for i := len(e.st.Calls) - 1; i >= 0; i-- {
+			ev := e.st.Calls[i]
+			for _, d := range ev.Desigs {
+				if d != name {
+					continue
+				}
+				if ev.Havoc || ev.Post == nil {
+					efail("at_return: the state after the last call to %q is not known here (call inside a cut loop)", name)
+				}
+				n := *e
+				n.st = ev.Post
+				return n.eval(x.Args[1])
+			}
+		}
+		efail("lastresult: no call to %q on this path", name)
 	case "lastresult":
 		// lastresult("designator"[, i]): i-th result of the most recent call to designator on this path
 		name := ""
